@@ -259,6 +259,7 @@ int cmd_ts(int argc, char** argv) {
     FILE* in = fopen(argv[2], "r");
     FILE* out = fopen(argv[3], "w");
     if (!in || !out) return 2;
+    setvbuf(out, nullptr, _IOLBF, 0);      // every finished operation is on disk when a sanitizer stops the process
     char op[16];
     while (fscanf(in, "%15s", op) == 1) {
         if (!strcmp(op, "off")) {
